@@ -237,6 +237,7 @@ pub enum ZCond {
     Lt(ZExpr, ZExpr),
     And(Box<ZCond>, Box<ZCond>),
     Or(Box<ZCond>, Box<ZCond>),
+    Not(Box<ZCond>),
     True,
     Unknown(String),
 }
@@ -488,7 +489,29 @@ pub fn zcond(c: &ZCond) -> String {
         ZCond::Lt(a, b) => format!("(ZLt {} {})", zexpr(a), zexpr(b)),
         ZCond::And(a, b) => format!("(ZAnd {} {})", zcond(a), zcond(b)),
         ZCond::Or(a, b) => format!("(ZOr {} {})", zcond(a), zcond(b)),
+        ZCond::Not(a) => format!("(ZNot {})", zcond(a)),
         ZCond::True => "ZTrue".into(),
         ZCond::Unknown(u) => format!("(ZUnknownC {})", s(u)),
+    }
+}
+
+/// The body of `alloc_zst` as a decision tree (see Syntax.v, `zbody`).
+#[derive(Clone, Debug)]
+pub enum ZBody {
+    RetSome,
+    RetNone,
+    If(ZCond, Box<ZBody>, Box<ZBody>),
+    /// internal only (bodies of `bool` helpers): a leaf that is itself a condition; never printed
+    Cond(ZCond),
+    Unknown(String),
+}
+
+pub fn zbody(b: &ZBody) -> String {
+    match b {
+        ZBody::RetSome => "ZRetSome".into(),
+        ZBody::RetNone => "ZRetNone".into(),
+        ZBody::If(c, t, e) => format!("(ZIf {}\n     {}\n     {})", zcond(c), zbody(t), zbody(e)),
+        ZBody::Cond(_) => format!("(ZUnknownB {})", s("condition leaf outside a bool helper")),
+        ZBody::Unknown(u) => format!("(ZUnknownB {})", s(u)),
     }
 }
